@@ -1201,3 +1201,92 @@ Proof.
   split. { intros s Hs. in_cases Hs; split; simpl; auto; right; split; try discriminate; reflexivity. }
   vm_compute. reflexivity.
 Qed.
+
+(* ========================================================================= a non-trivial state for the examples *)
+Local Open Scope string_scope.
+Definition ex_tr (n : Z) (dx : Q) : transform := mkTr n false true [dx; 0%Q; 0%Q] [].
+(* 1 px 0 / 2 px 6e-5 / 3 px 1.2e-4 (a chain: 1~2, 2~3, not 1~3) / 4 cz 1 / 5 cz 1 / 6 so 5 / 7 so 5 (never merged)
+   8 1 px 3 / 9 2 px 3 (tr1 = tr2 within tolerance) / 10 c/z 1 2 3 / 11 c/z 1 2 3.00005 / 12 c/z 1 2.5 3 *)
+Definition ex_surfs : list surface :=
+  [ mkSurf 1 CAxisPlane "PX" [0%Q] 0 0 false false 0 None;
+    mkSurf 2 CAxisPlane "PX" [6 # 100000] 0 0 false false 0 None;
+    mkSurf 3 CAxisPlane "PX" [12 # 100000] 0 0 false false 0 None;
+    mkSurf 4 CCylOnAxis "CZ" [1%Q] 0 0 false false 0 None;
+    mkSurf 5 CCylOnAxis "CZ" [1%Q] 0 0 false false 0 None;
+    mkSurf 6 COther "SO" [5%Q] 0 0 false false 0 None;
+    mkSurf 7 COther "SO" [5%Q] 0 0 false false 0 None;
+    mkSurf 8 CAxisPlane "PX" [3%Q] 0 0 false false 1 (Some (ex_tr 1 1));
+    mkSurf 9 CAxisPlane "PX" [3%Q] 0 0 false false 2 (Some (ex_tr 2 (100001 # 100000)));
+    mkSurf 10 CCylParAxis "C/Z" [1%Q; 2%Q; 3%Q] 0 0 false false 0 None;
+    mkSurf 11 CCylParAxis "C/Z" [1%Q; 2%Q; 300005 # 100000] 0 0 false false 0 None;
+    mkSurf 12 CCylParAxis "C/Z" [1%Q; 5 # 2; 3%Q] 0 0 false false 0 None ].
+Definition ex_cells : list cell :=
+  [ mkCell 1 [1; 2; 5] (GAnd (GSurf true 1) (GOr (GSurf false 2) (GNot (GSurf true 5))));
+    mkCell 2 [2; 3; 6; 9] (GAnd (GAnd (GSurf true 2) (GSurf false 3)) (GOr (GSurf false 6) (GSurf true 9)));
+    mkCell 3 [6; 7; 12] (GOr (GSurf false 6) (GAnd (GSurf true 7) (GSurf false 12)));
+    mkCell 4 [11; 10; 5; 4] (GAnd (GNot (GCell 3)) (GAnd (GAnd (GSurf false 11) (GSurf true 10))
+                                                          (GOr (GSurf false 5) (GSurf true 4)))) ].
+Definition ex_prob : problem := mkProb ex_surfs ex_cells [ex_tr 1 1; ex_tr 2 (100001 # 100000)].
+Definition ex_del : list Z := [2; 5; 9; 11].
+Definition ex_map : list (Z * Z) := [(2, 3); (5, 4); (9, 8); (11, 10)].
+Local Close Scope string_scope.
+
+Lemma ex_scan : scan tol4 (p_surfs ex_prob) = Ok (ex_del, ex_map).
+Proof. vm_compute. reflexivity. Qed.
+
+Lemma ex_wf : wf ex_prob.
+Proof.
+  unfold wf. simpl. repeat constructor; simpl; intuition discriminate.
+Qed.
+
+Lemma ex_class_ok : Forall class_ok (p_surfs ex_prob).
+Proof. repeat constructor. Qed.
+
+Lemma ex_bc : bc_uniform (p_surfs ex_prob).
+Proof. intros a b Ha Hb _. in_cases Ha; in_cases Hb; split; reflexivity. Qed.
+
+Lemma ex_periodic_visible : Forall periodic_visible (p_surfs ex_prob).
+Proof. repeat constructor. Qed.
+
+Lemma ex_tr_uniform : tr_uniform (p_surfs ex_prob).
+Proof. tr_uniform_tac. Qed.
+
+Lemma ex_planes : planes_old_nonperiodic (p_surfs ex_prob).
+Proof. intros s Hs _. in_cases Hs; reflexivity. Qed.
+
+Lemma ex_links : links ex_prob.
+Proof. intros c Hc. in_cases Hc; simpl; intros x Hx; simpl in Hx; intuition. Qed.
+
+Lemma ex_in_sync : forall s, In s (p_surfs ex_prob) -> in_sync (p_surfs ex_prob) (p_trs ex_prob) s.
+Proof.
+  intros s Hs. in_cases Hs; split; simpl; auto; right; split; try discriminate; reflexivity.
+Qed.
+
+(* the call on the example: 2 -> 3 (the entry 2 -> 1 was overwritten), 5 -> 4, 9 -> 8, 11 -> 10 *)
+Definition ex_after_cells : list cell :=
+  [ mkCell 1 [] (GAnd (GSurf true 1) (GOr (GSurf false 3) (GNot (GSurf true 4))));
+    mkCell 2 [] (GAnd (GAnd (GSurf true 3) (GSurf false 3)) (GOr (GSurf false 6) (GSurf true 8)));
+    mkCell 3 [] (GOr (GSurf false 6) (GAnd (GSurf true 7) (GSurf false 12)));
+    mkCell 4 [] (GAnd (GNot (GCell 3)) (GAnd (GAnd (GSurf false 10) (GSurf true 10))
+                                                  (GOr (GSurf false 4) (GSurf true 4)))) ].
+
+Lemma ex_dedup :
+  exists P', dedup tol4 ex_prob = Ok P' /\
+             map s_num (p_surfs P') = [1; 3; 4; 6; 7; 8; 10; 12] /\ p_cells P' = ex_after_cells.
+Proof. eexists. split; [vm_compute; reflexivity|]. split; reflexivity. Qed.
+
+(* an assignment of sides that identifies the merged surfaces and makes the regions non-constant *)
+Definition ex_es (n : Z) : bool := Z.odd n || Z.eqb n 2 || Z.eqb n 10.
+
+Lemma ex_identifies : identifies ex_map ex_es.
+Proof.
+  intros d s H. unfold ex_map in H. simpl in H.
+  repeat (match type of H with (if ?c then _ else _) = _ => destruct c eqn:?E end;
+          [inversion H; subst; clear H; apply Z.eqb_eq in E; subst; reflexivity|]).
+  discriminate.
+Qed.
+
+Lemma ex_regions :
+  map (fun c => region ex_es (fun _ => false) (c_geom c)) ex_cells = [true; false; true; false] /\
+  map (fun c => region ex_es (fun _ => false) (c_geom c)) ex_after_cells = [true; false; true; false].
+Proof. split; vm_compute; reflexivity. Qed.
